@@ -249,17 +249,6 @@ Proof.
   destruct c as [|c0 c']; [discriminate|]. now exists c0, c'.
 Qed.
 
-Lemma wfb_dirs s f1 : wfb s = true -> files f1 = files (fs s) ->
-  (forall q, existsb (beqb q) (dirs f1) = existsb (beqb q) (dirs (fs s)) || false
-             \/ existsb (beqb HEADp) (dirs f1) = false) ->
-  existsb (beqb HEADp) (dirs f1) = false ->
-  wfb {| fs := f1; packed := packed s |} = true.
-Proof.
-  intros Hw Ef _ Hh. destruct (wfb_parts s Hw) as [Hnd [Hf [Hr [_ Hp]]]].
-  unfold wfb, is_file, is_dir. cbn [fs packed]. rewrite Ef, Hnd, Hf, Hp, Hh.
-  unfold is_file in Hr. now rewrite Hr.
-Qed.
-
 Lemma set_ref_cas s n v o : wfb s = true -> name_okb n = true -> val_okb v = true ->
   let (s', r) := set_ref s n v (Some o) in
   (r = Er EFs /\ s' = s) \/
